@@ -27,6 +27,7 @@ from __future__ import annotations
 import ast
 import hashlib
 import importlib
+import inspect
 import os
 import sys
 import textwrap
@@ -554,7 +555,24 @@ def load(module: str, qualname: str, extra_globals: dict | None = None, *, vc=No
     if extra_globals:
         g.update(extra_globals)
     ns: dict = {}
-    exec(code, g, ns)
+    try:
+        exec(code, g, ns)
+    except NameError:
+        # a default argument that names a class-level attribute (`def read_chunk(self, size=chunk_size)`): evaluated in
+        # the class body at definition time, it is not a global.  Take the default VALUES from the live function object.
+        live_obj = realmod
+        for part in qualname.split("."):
+            live_obj = inspect.getattr_static(live_obj, part) if not isinstance(live_obj, type(realmod)) else getattr(live_obj, part)
+        live_fn = getattr(live_obj, "__func__", live_obj)
+        live_fn = getattr(live_fn, "fget", live_fn)
+        fn.args.defaults = [ast.Constant(value=None) for _ in fn.args.defaults]
+        fn.args.kw_defaults = [None if d is None else ast.Constant(value=None) for d in fn.args.kw_defaults]
+        ast.fix_missing_locations(mod)
+        code = compile(mod, f"<pyvc:{module}:{qualname}>", "exec")
+        ns = {}
+        exec(code, g, ns)
+        ns[fn.name].__defaults__ = live_fn.__defaults__
+        ns[fn.name].__kwdefaults__ = live_fn.__kwdefaults__
     f = ns[fn.name]
     # make the function see its own globals (exec with separate locals keeps g as globals)
     return f, info
